@@ -41,12 +41,12 @@ chk("C15", "exploration", T + "normal-form change sets computed from the version
     "Histories with repeated writes of one key per version, no-op and empty versions, pruning; every extracted change set whose predecessor is retained is compared with R1's normal form; replay of all change sets reproduces contents (and hashes for normal-form runs). No fault or schedule dimension.", N, "DESIGN.md §5 C15")
 
 chk("C05", "fault_enumeration", "deterministic simulation with crash injection: fault-free run records the physical write log of the simulated disk; every boundary between two physical writes of every multi-write step is enumerated, the store is reopened on that image and compared with the model before/after the step; retry and continuation must be canonical",
-    "Cut positions are enumerated exhaustively for each explored history (commit, deletion of old versions, rollback, import commit, fast-index build/rebuild); histories, flush thresholds (150..default) and the reopening configuration are sampled. Old-or-new is decided on the whole observable state (version APIs, all reads of all retained versions through walk/fast path/iteration, hashes).", "Storage model of the statement: atomic, totally ordered batch writes (no torn batches, reordering or lost un-synced writes). " + N, "DESIGN.md §5 C05")
+    "Cut positions are enumerated exhaustively for each explored history (commit, deletion of old versions, rollback, import commit, fast-index build/rebuild); histories, flush thresholds (150..default) and the reopening configuration are sampled; one run in ten starts from a database written by the real legacy library, one per batch is a ~21 000-node import (24 sampled cuts). Old-or-new is decided on the whole observable state (version APIs, all reads of all retained versions through walk/fast path/iteration, hashes); an operation over several versions carried out for some of them only is told apart from a damaged state (intermediate-version, listed finding; retry must still succeed).", "Storage model of the statement: atomic, totally ordered batch writes (no torn batches, reordering or lost un-synced writes). " + N, "DESIGN.md §5 C05")
 chk("C18", "exploration", "deterministic simulation of storage programs: one seeded program of point ops, batches (incl. reuse after write/close), forward/reverse iterators over all bound shapes and nested prefix views executed on MemDB, GoLevelDB (real files, clean close/reopen), PrefixDB stacks and a sorted-map model; results and full root contents compared after every step",
     "Seeded sequential programs over a byte alphabet containing 0x00 and 0xFF with nested prefixes incl. 0xFF runs; every result is compared with a sorted-map model and across backends; prefix isolation is checked on the shared parent store after every step.", "Sequential programs plus clean restart only: batch atomicity under concurrent readers or power loss is not decided. GoLevelDB itself (third party) is trusted. The sorted-map model is the specification.", "DESIGN.md §5 C18")
 
 chk("C17", "fault_enumeration", "deterministic simulation with storage fault injection: every single storage call (by kind and index) of every probe operation fails once on a fork of the simulated disk; error-or-fault-free-answer for reads, no success after a failed write, reopen to old-or-new after failed write operations; seeded two-fault sequences",
-    "Single-fault positions are enumerated exhaustively per explored (history, probe); histories and probes (17 read kinds, 6 write kinds incl. import) are sampled. Signatures carry the API, the failing call kind, the innermost iavl call site of the injected failure and the symptom.", "A failed storage call returns an error and has no effect. After a reported error the handle is discarded. APIs without an error result are outside the statement. " + N, "DESIGN.md §5 C17")
+    "Single-fault positions are enumerated exhaustively per explored (history, probe); histories and probes (17 read kinds, 7 write kinds incl. import and unchanged commits) are sampled; one run in eight starts from a database written by the real legacy library; a fifth are whole histories under random fault sequences; one per 350 is a ~21 000-node import under faults. A write operation that succeeds under a failed read must leave the fault-free durable contents. Signatures carry the API, whether anything was flushed, the failing call kind, the innermost iavl call site of the injected failure and the symptom.", "A failed storage call returns an error and has no effect. After a reported error the handle is discarded. APIs without an error result are outside the statement. " + N, "DESIGN.md §5 C17")
 
 chk("C10", "exploration", T + "export/import steps inside lock-step histories (stream vs R2 post-order, imported tree vs R1/R2, future hashes); simulated faulty exporter->importer channel and generated hostile node sequences against both importers",
     "Fidelity: export of every kind of retained version (empty, single leaf, inherited root, >10 000 nodes) through both codecs, imported tree audited and continued. Totality: mutated and generated ExportNode sequences fed to Add/Commit; no panic/hang, nothing visible unless Commit succeeded, committed imports internally consistent.", N + " Import versions capped at 10^6 (allocation of version+1 nonces).", "DESIGN.md §5 C10")
